@@ -3670,3 +3670,42 @@ _PR_CMD = _cmd(CLI_PREPARE, _PR_NS, "pr", "src_cli_prepare_cmd", "src_pr_get_arg
                 _seed_prim(_PR_NS, "pr")])
 ARGS_CMD_PR = _PR_CMD
 ALL += [ARGS_CMD_CS, ARGS_CMD_SN, ARGS_CMD_TM, ARGS_CMD_PR]
+# -- introspection.py itself (vocabulary: the pyworld record at the end of Model/Cli.v; proofs: Proofs/C18SourceIntrospect.v).
+# Mod / Obj = module objects / any object a module attribute may hold; `W` = the importlib / pkgutil / inspect primitives.
+_INTRO = dict(file="src/batchie/introspection.py", out="SrcCliArgs.v", imports=_NS_IMPORTS, eqb=_ARGS_EQB, str_consts="str")
+_MOW = [("Mod", "Type"), ("Obj", "Type"), ("W", "pyworld Mod Obj")]
+_TRUTHY = {"Obj": "w_truthy W"}
+ARGS_GET_CLASS = dict(
+    _INTRO, func="get_class", name="src_get_class", pyparams=["package_name", "class_name", "base_class"],
+    params=_MOW + [("package_name", "str"), ("class_name", "str"), ("base_class", "base_class")], returns="opt Obj",
+    vars={"package": "Mod", "module_name": "str", "module": "Mod", "cls": "opt Obj"},
+    loop_return=True, implicit_return="None", truthy=_TRUTHY,          # falling off the loop returns None
+    prims=[("importlib.import_module(__n)", "!w_import W {n}", "Mod", {"n": "str"}),
+           # the triples walk_packages yields: only the module name is read
+           ("pkgutil.walk_packages(__p.__path__, __n + '.')", "map (fun n__ => (tt, n__, tt)) (w_walk W {p} {n})", "list (unit * str * unit)",
+            {"p": "Mod", "n": "str"}),
+           ("getattr(__m, __n, None)", "w_getattr W {m} {n}", "opt Obj", {"m": "Mod", "n": "str"}),
+           ("issubclass(__c, __b)", "!w_issubclass W {c} {b}", "bool", {"c": "Obj", "b": "base_class"})],
+    raises=[("is not a subclass of", 31)])
+ARGS_CREATE_INSTANCE = dict(
+    _INTRO, func="create_instance", name="src_create_instance", pyparams=["package_name", "class_name", "base_class", "kwargs"],
+    params=_MOW + [("V", "Type"), ("Inst", "Type"), ("construct", "Obj -> V -> result Inst"), ("package_name", "str"), ("class_name", "str"),
+                   ("base_class", "base_class"), ("kwargs", "V")],
+    returns="Inst", vars={"cls": "opt Obj", "instance": "Inst"}, truthy=_TRUTHY,
+    prims=[("get_class(__p, __n, __b)", "!src_get_class Mod Obj W {p} {n} {b}", "opt Obj", {"p": "str", "n": "str", "b": "base_class"}),
+           ("__c(**__k)", "!construct {c} {k}", "Inst", {"c": "Obj", "k": "V"})],
+    raises=[("was not found in the package", 30)])
+ARGS_REQUIRED = dict(
+    _INTRO, func="get_required_init_args_with_annotations", name="src_get_required_init_args", pyparams=["cls"],
+    params=_MOW + [("cls", "opt Obj")], returns=_KD_SA,
+    vars={"init_signature": "kdict str sigparam", "parameters": "kdict str sigparam", "required_args_with_annotations": _KD_SA,
+          "name": "str", "param": "sigparam", "annotation": "ann"},
+    if_expr=True, coerce=[("none", "ann", "ANone")],       # the literal None as an annotation value
+    prims=[("inspect.isclass(__c)", "opt_isclass W {c}", "bool", {"c": "opt Obj"}),
+           ("inspect.signature(__c.__init__)", "!w_signature W {c}", "kdict str sigparam", {"c": "Obj"}),
+           ("__s.parameters", "{s}", "kdict str sigparam", {"s": "kdict str sigparam"}),        # the signature is its ordered parameter mapping
+           ("__p.default == inspect.Parameter.empty", "sp_no_default {p}", "bool", {"p": "sigparam"}),
+           ("__p.annotation", "sp_annotation {p}", "ann", {"p": "sigparam"}),
+           ("inspect.Parameter.empty", "AEmpty", "ann")],
+    raises=[("The given object is not a class", 29)])
+ALL += [ARGS_GET_CLASS, ARGS_CREATE_INSTANCE, ARGS_REQUIRED]
